@@ -1,4 +1,5 @@
 import LenaModel.Model.C03X
+import LenaModel.Model.C03Spec
 import LenaModel.Lemmas.C03
 /-! # C03 — lemmas for `Model/C03X.lean`: the generic loops are folds -/
 
@@ -198,15 +199,6 @@ theorem finalPassG_finalFull (fwe : Bool) (act : List (Branch σ α))
 
 /-! ## the objects after the run -/
 
-/-- what becomes of one branch object over the blocks and the final pass `fin`, independently
-of all other branches -/
-def objAfterG (fin : Branch σ α → Branch σ α) (b : Branch σ α) : List (List α) → Branch σ α
-  | [] => fin b
-  | blk :: rest =>
-    match (stepFull blk b).2.2 with
-    | .stay => objAfterG fin (stepFull blk b).2.1 rest
-    | _ => (stepFull blk b).2.1
-
 /-- one pass: the dropped objects together with (a function of) the kept ones are the objects
 of the pass, up to order -/
 theorem foldG_perm (buf : List α) (g : Branch σ α → Branch σ α) (l : List (Branch σ α)) :
@@ -250,6 +242,7 @@ theorem passesG_perm (fin : Branch σ α → Branch σ α) (bl : List (List α))
     apply List.map_congr_left
     intro b _
     simp only [objAfterG]
+    try (cases (stepFull blk b).2.2 <;> rfl)
 
 theorem findObj_append (i : Nat) (xs ys : List (Branch σ α)) :
     findObj i (xs ++ ys) = (findObj i xs).orElse (fun _ => findObj i ys) := by
